@@ -138,10 +138,14 @@ def _has_nonselector_body(g):
     return bool(set(_names(g.spec)) - T.selector_bodies(g.spec))
 
 
-for _g in [GRAPHS[g] for g in sorted(GRAPHS) if g not in HEAVY and _has_nonselector_body(GRAPHS[g]) and "effopt" not in GRAPHS[g].tags]:
+_NEVER_FAILS = {"g3D"}        # a constant fallback behind the only faultable body: evaluation cannot fail, nothing to check
+
+for _g in [GRAPHS[g] for g in sorted(GRAPHS) if g not in HEAVY and g not in _NEVER_FAILS and _has_nonselector_body(GRAPHS[g])
+           and "effopt" not in GRAPHS[g].tags]:
     _fp = [("f%d" % i, "bool") for i, _ in enumerate(T.fault_names(_g.spec))]
     _ex = {"f%d" % i: (n != "pred") for i, n in enumerate(T.fault_names(_g.spec))}
     T.register("C10", __name__, h_vke_partial, {}, [_g], lemma="partial-bodies", name_prefix="vkep", timeout=300, extra_params=_fp,
+               cubes=({"f0": [False, True], "f1": [False, True]} if len(_fp) >= 4 else None),
                extra_example=(_ex if _g.gid != "g33" else None), example_index={"g17": 1, "g26": 1},
                what="bodies (callbacks, effects, predicates, steps) that raise on a chosen subset: when validate(o) passes, evaluate(o) "
                     "never fails with a missing-option error",
